@@ -236,7 +236,7 @@ for _p in ("C07", "C13"):
 
 def scale_job(fam):
     """quantity: each repeatable part of the grammar at sizes where an implementation could plausibly change behaviour"""
-    return {"module": "MC_Scale", "spec": "Spec", "invariants": ["InvDup", "InvBig", "InvCanon", "Emit"],
+    return {"module": "MC_Scale", "spec": "Spec", "invariants": ["InvDup", "InvBig", "InvCanon", "InvRt", "Emit"],
             "constants": {"Fam": '"%s"' % fam},
             "quick": {"constants": {"Sizes": "{4, 9, 12, 17, 24, 25, 33, 65, 257}"}, "timeout": 300, "workers": 8},
             "thorough": {"constants": {"Sizes": "{4, 5, 7, 8, 9, 10, 11, 12, 13, 15, 16, 17, 24, 25, 31, 32, 33, 64, 65, 128, 129, 255, 256, 257, 1000}"},
@@ -245,7 +245,7 @@ def scale_job(fam):
 
 for _p, _fams in {"C12": ["dup"], "C08": ["header"], "C09": ["msg"], "C10": ["key"], "C18": ["cwtkdf"], "C20": ["canon"],
                   "C11": ["header", "msg", "key", "cwtkdf"], "C07": ["header", "msg", "key", "cwtkdf"],
-                  "C01": ["header", "msg", "key", "cwtkdf"]}.items():
+                  "C01": ["header", "msg", "key", "cwtkdf"], "C06": ["roundtrip"], "C19": ["builder"]}.items():
     JOBS[_p] = JOBS[_p] + [scale_job(f) for f in _fams]
 
 
